@@ -236,8 +236,121 @@ def run_select_case(p):
     return None
 
 
+def run_cache_case(p):
+    """C05: the same query, result cache on and off, first evaluation and re-evaluation: the same result set (and row
+    count, all variables being selected)"""
+    from entity_query_language import symbolic_mode, let, an, set_of
+    rng0 = random.Random(p['seed'])
+    nv = rng0.choice([1, 2, 2])
+    outcomes = {}
+    want = None
+    for caching in (True, False):
+        O.reset_registry()
+        rng = random.Random(p['seed'] + 1)
+        doms = [O.make_domain(rng, 3) for _ in range(nv)]
+        cond = O.gen_cond(rng, nv, 2, vocab=('cmp', 'name', 'truth', 'contains'), neg=True, nested_neg=True)
+        (O.enable_caching if caching else O.disable_caching)()
+        try:
+            with symbolic_mode():
+                xs = [let(type_=O.Item, domain=d) for d in doms]
+                q = an(set_of(xs, O.build(cond, xs)))
+            # identify objects by their position in the domain (fresh objects per configuration)
+            pos = [{id(o): i for i, o in enumerate(d)} for d in doms]
+            for k in ('first', 'again'):
+                rows = list(q.evaluate())
+                outcomes[(caching, k)] = sorted(tuple(pos[i][id(r[x])] for i, x in enumerate(xs)) for r in rows)
+            import itertools
+            want = sorted(c for c in itertools.product(*[range(len(d)) for d in doms])
+                          if O.holds(cond, {i: doms[i][j] for i, j in enumerate(c)}))
+        except Exception as e:  # noqa
+            O.enable_caching()
+            return {'exception': repr(e), 'caching': caching, 'condition': repr(cond), 'trace': traceback.format_exc(limit=4)}
+        finally:
+            O.enable_caching()
+    vals = list(outcomes.values())
+    if any(v != vals[0] for v in vals) or vals[0] != want:
+        return {'condition': repr(cond), 'rows': {f"caching={k[0]},{k[1]}": len(v) for k, v in outcomes.items()}, 'want_rows': len(want),
+                'signature_kind': 'differs-between-configurations' if any(v != vals[0] for v in vals) else 'all-wrong'}
+    return None
+
+
+def run_history_case(p):
+    """C04: a history of full / partial / aborted evaluations of queries sharing a variable, then every query is evaluated
+    fully and compared with the reference; the user's domain list and objects must be untouched"""
+    from entity_query_language import symbolic_mode, let, an, entity, predicate
+    O.reset_registry()
+    (O.enable_caching if p.get('caching', True) else O.disable_caching)()
+    rng = random.Random(p['seed'])
+    dom = O.make_domain(rng, 4)
+    if p.get('duplicates') and rng.random() < 0.7:
+        dom.append(dom[rng.randrange(len(dom))])       # the same object listed twice
+    snapshot = [(id(o), o.name, o.size, o.flag, list(o.tags), dict(o.props)) for o in dom]
+    calls = {'n': 0, 'raise_at': None}
+
+    @predicate
+    def fragile(o):
+        calls['n'] += 1
+        if calls['raise_at'] is not None and calls['n'] == calls['raise_at']:
+            raise KeyError('user code failed')
+        return o.size >= 2
+
+    conds = [O.gen_cond(rng, 1, 2, vocab=('cmp', 'name', 'truth'), neg=True, nested_neg=True) for _ in range(2)]
+    log = []
+    try:
+        with symbolic_mode():
+            x = let(type_=O.Item, domain=dom)
+            qs = [an(entity(x, O.build(conds[0], [x]))), an(entity(x, O.build(conds[1], [x]))), an(entity(x, fragile(x)))]
+        refs = [[o for o in dom if O.holds(conds[0], {0: o})], [o for o in dom if O.holds(conds[1], {0: o})],
+                [o for o in dom if o.size >= 2]]
+        if len(set(map(id, dom))) < len(dom):
+            # an object listed more than once: the property only asks that the first and every later evaluation agree;
+            # the reference is what an identical, never evaluated query delivers
+            with symbolic_mode():
+                x2 = let(type_=O.Item, domain=list(dom))
+                fresh = [an(entity(x2, O.build(conds[0], [x2]))), an(entity(x2, O.build(conds[1], [x2]))), an(entity(x2, fragile(x2)))]
+            refs = [list(f.evaluate()) for f in fresh]
+        for step in range(p.get('steps', 4)):
+            i = rng.randrange(3 if p.get('exceptions', True) else 2)
+            op = rng.choice(['full', 'partial', 'partial'] + (['raise'] if i == 2 else []))
+            log.append((op, i))
+            calls['raise_at'] = None
+            if op == 'full':
+                list(qs[i].evaluate())
+            elif op == 'partial':
+                it = qs[i].evaluate()
+                for _ in range(rng.randrange(0, 3)):
+                    next(it, None)
+                it.close()
+            else:
+                calls['n'] = 0
+                calls['raise_at'] = rng.randrange(1, len(dom) + 1)
+                try:
+                    list(qs[i].evaluate())
+                except KeyError:
+                    pass
+                calls['raise_at'] = None
+        for i, q in enumerate(qs):
+            got = list(q.evaluate())
+            if not O.same_list_by_identity(got, refs[i]):
+                return {'history': log, 'query': i, 'condition': repr(conds[i]) if i < 2 else 'fragile(x)', 'domain': repr(dom),
+                        'got': repr(got), 'want': repr(refs[i]),
+                        'signature_kind': ('after-abandoned-evaluation' if any(o in ('partial', 'raise') for o, _ in log) else 'plain')
+                        + (',duplicates-in-domain' if len(set(map(id, dom))) < len(dom) else '')}
+        if [(id(o), o.name, o.size, o.flag, list(o.tags), dict(o.props)) for o in dom] != snapshot:
+            return {'history': log, 'what': 'the domain list or its objects were modified', 'signature_kind': 'user-data-modified'}
+    except Exception as e:  # noqa
+        return {'history': log, 'exception': repr(e), 'trace': traceback.format_exc(limit=4), 'signature_kind': 'exception'}
+    finally:
+        O.enable_caching()
+    return None
+
+
 def run_case(p):
     """returns None if the real engine agrees with the reference, else a description of the disagreement."""
+    if p.get('kind') == 'cache':
+        return run_cache_case(p)
+    if p.get('kind') == 'history':
+        return run_history_case(p)
     if p.get('kind') == 'select':
         return run_select_case(p)
     if p.get('kind') == 'flatten':
